@@ -21,6 +21,9 @@ SHAPES = ["accept", "reject", "before-user", "after-login", "anonymous-then-pass
           "accept-then-work", "accept-relogin", "two-sessions-quit-relogin", "two-sessions-drop-relogin"]
 ACCEPTING = ("accept", "retry", "accept-then-work", "accept-relogin", "two-sessions-quit-relogin", "two-sessions-drop-relogin")
 SPELL = ["PASS", "pass", "PaSs"]
+# spellings that are not PASS under str.lower() but are under other case mappings (casefold, upper): if the server
+# takes one of them for PASS its argument is a password and must not be logged; if it answers 502 it is not a password
+ODD_SPELL = ["PA\u017fS", "pa\u00df", "Pa\u017f\u017f", "P\u0410SS", "\uff30\uff21\uff33\uff33", "PASS\u200b"]
 
 
 def passwords(maxlen):
@@ -321,6 +324,9 @@ def work(item):
             part.nontrivial.add(report.fp([shape, spelling, via_client, p]))
         part.outcomes[report.fp(codes)] += 1
         sig = {"kind": None, "shape": shape, "spelling": spelling if not via_client else "Client.login"}
+        if spelling in ODD_SPELL and all("502" in c for c in codes[-1:]) and shape in ("accept", "reject"):
+            # the server did not take the line for PASS (502): its argument is not a password
+            continue
         if codes == rcodes and log != rlog:
             # find the first differing line for the report
             a_l, b_l = log.split("\n"), rlog.split("\n")
@@ -352,6 +358,8 @@ def build_items(tier):
     for shape in ("accept", "reject"):
         for i in range(0, len(pws), chunk):
             items.append((shape, "PASS", True, pws[i:i + chunk]))
+        for sp in ODD_SPELL:
+            items.append((shape, sp, False, EXTRA + passwords(1)))
     for shape in ("reject", "before-user", "after-login", "retry"):
         for sp in SPELL:
             items.append((shape, sp, RAW))
